@@ -436,7 +436,7 @@ class C18(Check):
         def on_transition(hist, ev, viol):
             desc = {'k': 'replay', 'kind': kind, 'history': hist + [ev]}
             R.transitions += 1
-            R.case(desc, nontrivial=True, cls=f'{kind}/{ev[0]}', outcome='ok' if not viol else 'violation')
+            R.case(desc, nontrivial=True, cls=f'{kind}/{ev[0]}', outcome=f"{ev[0]}:{'ok' if not viol else 'violation'}")
             for sig, det in viol:
                 R.violation(sig, desc, det)
 
